@@ -48,6 +48,9 @@ def cases(tier, seed):
         if R < 3 * np.degrees(hp.nside2resol(2 ** d)):
             continue
         yield "polygon", dict(ci=ci, n=n, R=R, depth=d, winding=w)
+    for k in range(5):
+        for r, d in ((0.5, 6), (5.0, 5), (0.3, 9)):
+            yield "rabranch", dict(k=k, r=r, depth=d)
     for k in range(len(INT_CENTRES)):
         for d in (4, 8):
             yield "inttypes", dict(k=k, depth=d)
@@ -172,6 +175,51 @@ def ev_polygon(case, ctx):
     ctx.outcome("poly_in=%d,far=%d" % (min(1, int(np.sum(ans_in))), min(1, int(np.sum(beyond)))))
 
 
+def ev_rabranch(case, ctx):
+    """right ascensions quoted on another branch (ra - 360, ra + 360, polygons written across the wrap as 359, 361 or -1, 1):
+    the same places on the sky, hence the same regions"""
+    depth = case["depth"]
+    cra, cdec = [(0.0, 0.0), (359.9999, 45.0), (0.3, -20.0), (359.0, 10.0), (180.0, 30.0)][case["k"]]
+    r = case["r"]
+    sig = "rabranch:centre=(%g,%g),r=%g,depth=%d" % (cra, cdec, r, depth)
+    ctx.count("rabranch")
+    ctx.nontrivial(sig)
+    ref = Region(maxdepth=depth)
+    ref.add_circles(np.radians(cra), np.radians(cdec), np.radians(r))
+    want = set(int(p) for p in ref.get_demoted())
+    for shift in (-360.0, 360.0, -720.0):
+        try:
+            g = Region(maxdepth=depth)
+            g.add_circles(np.radians(cra + shift), np.radians(cdec), np.radians(r))
+            got = set(int(p) for p in g.get_demoted())
+        except Exception as e:
+            ctx.violation("add_circles at ra %g%+g deg raised %r (%s)" % (cra, shift, e, sig), "rabranch_raise|" + sig)
+            continue
+        if got != want:
+            ctx.violation("a circle centred at ra = %g%+g deg is not the circle centred at ra = %g deg: %d pixels vs %d, %d in common (%s)" % (
+                cra, shift, cra, len(got), len(want), len(got & want), sig), "rabranch_circle|%s,shift=%g" % (sig, shift))
+        ans = np.asarray(ref.sky_within(cra + shift, cdec, degin=True), dtype=bool)
+        if not ans.all():
+            ctx.violation("sky_within at ra = %g%+g deg (the circle's own centre) answers %r (%s)" % (cra, shift, ans.tolist(), sig), "rabranch_query|%s,shift=%g" % (sig, shift))
+    # polygon around the centre; vertices quoted (a) normalised, (b) in (-180, 180], (c) in [180, 540)
+    vra, vdec = sphere.destination(cra, cdec, max(r, 3 * np.degrees(hp.nside2resol(2 ** depth))), np.array([20.0, 110.0, 200.0, 290.0]))
+    vra, vdec = np.asarray(vra, dtype=float) % 360, np.asarray(vdec, dtype=float)
+    forms = dict(normalised=vra, signed=np.where(vra > 180, vra - 360, vra), shifted=np.where(vra < 180, vra + 360, vra))
+    sets = {}
+    for nm, vv in forms.items():
+        try:
+            g = Region(maxdepth=depth)
+            g.add_poly(list(zip(np.radians(vv), np.radians(vdec))))
+            sets[nm] = set(int(p) for p in g.get_demoted())
+        except Exception as e:
+            ctx.violation("add_poly with %s right ascensions %r raised %r (%s)" % (nm, [round(float(x), 3) for x in vv], e, sig), "rabranch_raise|%s,%s" % (sig, nm))
+    for nm in ("signed", "shifted"):
+        if nm in sets and "normalised" in sets and sets[nm] != sets["normalised"]:
+            ctx.violation("a polygon with vertices at ra %r is not the polygon with the same vertices at ra %r: %d vs %d pixels (%s)" % (
+                [round(float(x), 3) for x in forms[nm]], [round(float(x), 3) for x in vra], len(sets[nm]), len(sets["normalised"]), sig), "rabranch_poly|%s,%s" % (sig, nm))
+    ctx.outcome("rabranch")
+
+
 INT_CENTRES = [(0, 0), (1, 0), (3, -1), (6, 1), (0, 1), (2, 0)]      # radians, whole numbers
 
 
@@ -227,4 +275,4 @@ def ev_inttypes(case, ctx):
 
 
 def evaluate(clause, case, ctx):
-    dict(circle=ev_circle, polygon=ev_polygon, inttypes=ev_inttypes)[clause](case, ctx)
+    dict(circle=ev_circle, polygon=ev_polygon, inttypes=ev_inttypes, rabranch=ev_rabranch)[clause](case, ctx)
